@@ -677,11 +677,20 @@ class Tee:
             raise
 
     def __enter__(self):
-        return MirrorLeecher(self.__file, self.__caches)
+        self.__leecher = MirrorLeecher(self.__file, self.__caches)
+        return self.__leecher
 
     def __exit__(self, exc_type, exc_value, traceback):
         try:
-            if self.__owner: self.__file.close()
+            try:
+                # The extractor stops reading at the end-of-archive marker.
+                # Mirror the remainder of the file too. Otherwise the caches
+                # might receive a truncated copy of the artifact.
+                if exc_type is None:
+                    while self.__caches and self.__leecher.read(0x10000):
+                        pass
+            finally:
+                if self.__owner: self.__file.close()
             if exc_type is None:
                 while self.__caches:
                     c = self.__caches.pop(0)
